@@ -49,6 +49,18 @@ claimed = {
   text="Decides structural clauses of 'safe, terminating, text-conserving, history-independent': (stackempty) at every return of applyAtRecursively the nested-action stack is empty — unreachable from pushing calls, guarded by the pushing call reporting no match, or dominated by a reset / the loop test — and (pushimplies) no apply method can return -1 after storing to ctx.stack, so a later Apply on the same Context never sees stale actions; (scratchclaim/scratchreuse, bufreset) reusable buffers of Context and Layouter are claimed before they escape and re-used only as buf[:0]; (textappend) text is accumulated in private buffers; (panicreach) every explicit panic / unchecked assertion / map-function call reachable from Apply or Layout is the default of a type switch over a closed set or a reviewed entry with a re-checked side condition (extension subtables resolved by the reader); (mapdet) no dependence on map iteration order. Level 'other'.",
   note="Trusted: go/types, go/ssa, VTA reachability, effect summaries (to find pushing calls), 2 reviewed entries. Not yet covered here (planned: taintidx/loopterm engines): range guards on lookup/sequence/class/mark-set indices before indexing rule tables, and termination of the scan loop's progress guard; text conservation and output-length bounds beyond the no-append-to-input rule are value-level.",
   ref="DESIGN.md §4 C07"),
+ "C08": dict(
+  technique="static size-algebra symbolic execution of paired length/encode functions over the type-checked syntax (sizeagree), sibling-formula agreement, dead-overflow-guard detection, order-sensitivity analysis",
+  engine="sizeagree",
+  text="Decides the clause 'every declared size equals the emitted size': for each of the 24 pairs (encodeLen, encode), (EncodeLen, Encode), (AppendLen, Append) in opentype/{gtab,coverage,classdef,anchor,markarray} a symbolic executor evaluates both functions, per path condition, to canonical polynomials over atoms len(path), paired-size calls, guarded sums over loops, folds and align(); returned length, final buffer length and requested capacity must be identical (19 pairs proven; 5 pairs that need an arithmetic fact outside the algebra are reviewed entries bound to the exact canonical forms they were reviewed for, so any change re-opens them). Also: (twinformula) duplicated size formulas in methods of one type agree (lookup header length in LookupList.encode vs tryReorder, a hand-confirmed required instance); (deadguard) an overflow check guarding a panic/error can fire, i.e. is not applied to an already truncated unsigned value ('refused loudly'); (mapdet) encoders and readers do not depend on map iteration order (sorted before emit). Offsets are laid out from these sizes, so a disagreement shifts every later table for some input; tests only sample shapes. Level 'other'.",
+  note="Trusted: go/types; the size algebra's treatment of unknown helper calls as opaque atoms compared textually; reviewed entries (5 sizeagree + 3 mapdet). Not covered: that decode(encode(x)) == x for contents; classdef.Table Append/AppendLen (loop form outside the algebra — explicitly undecided); extension-record arithmetic in tryReorder beyond the header formula; that every uint16 truncation of an offset has an overflow guard.",
+  ref="DESIGN.md §3 E8, §4 C08"),
+ "C11": dict(
+  technique="static size-algebra symbolic execution (sizeagree), writer/reader literal agreement for loca, effect analysis for read-only accessors",
+  engine="sizeagree",
+  text="Decides structural clauses of the glyf/loca statement: (sizeagree) (*Glyph).encodeLen equals the number of bytes (*Glyph).append emits on every path (nil glyph, simple, composite with/without instructions, alignment padding); (prefixsum) Glyphs.Encode builds loca offsets as prefix sums of encodeLen() of the glyphs it then appends in the same order; (locapair) encodeLoca picks the short format only under a bound T with T/2 <= 0xFFFF, stores offset/2 in the branch announcing format 0 and plain offsets in the branch announcing format 1, and decodeLoca multiplies by 2 exactly in case 0 and handles exactly these formats; (readonly) Components/FixComponents/encodeLen/append/Encode never write memory reachable from the glyphs they are called on. Level 'other'.",
+  note="Trusted: go/types, go/ssa, effect summaries. Not covered yet: checked-before-use of loca/glyph/flag data (planned with the taint engine), flag-mask agreement between removePadding and SimpleGlyph.Decode, agreement with an independent decoder.",
+  ref="DESIGN.md §3 E8, §4 C11"),
 }
 
 pending_reason = "not claimed yet: the engines this property needs are still being built (DESIGN.md §9 build order); no check is registered until it runs exact on the unchanged tree"
@@ -83,6 +95,7 @@ engines = [
  {"name": "c15rules", "path": "sfntlint/c15.go, sfntlint/ssahelp.go", "serves_properties": ["C15", "C07"], "kind_free_text": "control-dependence, CFG ordering and buffer-provenance rules"},
  {"name": "nameslots", "path": "sfntlint/c20.go", "serves_properties": ["C20"], "kind_free_text": "write-once / used-set discipline, .notdef ordering, PostScript-name regexp evaluation (E12)"},
  {"name": "shaperules", "path": "sfntlint/c07.go, sfntlint/c06.go, sfntlint/panicreach.go", "serves_properties": ["C06", "C07"], "kind_free_text": "slice-alias, scratch claim/release, nested-stack typestate, first-match shape, panic reachability (E13, E4, typestate)"},
+ {"name": "sizeagree", "path": "sfntlint/sizeagree.go, sfntlint/twins.go, sfntlint/c08.go, sfntlint/c11.go", "serves_properties": ["C08", "C11", "C01"], "kind_free_text": "symbolic size algebra for paired length/encode functions, twin formulas, dead overflow guards, loca writer/reader agreement (E8)"},
  {"name": "mapdet", "path": "sfntlint/mapdet.go, sfntlint/props_det.go", "serves_properties": ["C01", "C07", "C08", "C09", "C13", "C15", "C20"], "kind_free_text": "order-sensitivity analysis of map iteration, clock and scheduling sources (E5)"},
 ]
 for e in engines:
